@@ -46,11 +46,14 @@ const (
 
 var allActions = []action{actClose1, actClose2, actClose3, actPeerClose, actBothClose, actAlert0, actCtx, actReadDL, actHoldClose, actHoldPeerCN, actStallClose, actStallDL, actPeerCloseWF, actCloseWF}
 
+// closedClass: a "closed or EOF error". A pending HandshakeContext that Close interrupts reports "handshake
+// failed: context canceled" (the library cancels the handshake's own context on Close); that one wording is
+// accepted for the Handshake call only - Read and Write have to report that the connection is closed.
 func closedClass(err error) bool {
 	if err == nil {
 		return false
 	}
-	if errors.Is(err, io.EOF) || errors.Is(err, dtls.ErrConnClosed) || errors.Is(err, net.ErrClosed) || errors.Is(err, context.Canceled) {
+	if errors.Is(err, io.EOF) || errors.Is(err, dtls.ErrConnClosed) || errors.Is(err, net.ErrClosed) {
 		return true
 	}
 	s := err.Error()
@@ -514,7 +517,7 @@ func c16Run(t *testing.T, p *world.PKI, v checks.Variant, clientSide bool, pos i
 			}
 			if !x.HS.Done() {
 				bad("pending HandshakeContext not unblocked by Close")
-			} else if _, e := x.HS.Result(); e != nil && !closedClass(e) {
+			} else if _, e := x.HS.Result(); e != nil && !closedClass(e) && !errors.Is(e, context.Canceled) {
 				bad("pending HandshakeContext returned %v (not a closed/EOF error)", e)
 			}
 			if !rd.Done() {
